@@ -15,8 +15,9 @@ theorem mulMatrix_refines (rootDec : Op α → Op α) (hroot : ∀ x i j, (rootD
   unfold mulMatrix at h
   split at h
   · cases h; simp [denote]
-  · split_ifs at h with hz h1 h2 h3 h4
+  · split_ifs at h with hz ht h1 h2 h3 h4
     · cases h; cases b <;> simp [isZero] at hz; simp [denote]
+    · cases h; simp [denote]
     · cases h
       simp only [Bool.and_eq_true] at h1
       rw [denote_of_isDiag _ (isDiag_of_isConstDiag _ h1.1), denote_of_isDiag _ (isDiag_of_isConstDiag _ h1.2),
